@@ -378,8 +378,11 @@ def date_width(ctx):
     fi = ctx.func('dates.VolumeDescriptorDate.new')
     obs = []
     n = 0
+    if not any(isinstance(st, ast.Assign) and any(isinstance(t, ast.Attribute) and t.attr == 'date_str' for t in st.targets) for st in ctx.own_nodes(fi)):
+        raise AnalysisError('anchor-vanished: VolumeDescriptorDate.new no longer assigns date_str')
     for st in ctx.own_nodes(fi):
-        if not (isinstance(st, ast.Assign) and any(isinstance(t, ast.Attribute) and t.attr == 'date_str' for t in st.targets)):
+        # every formatted numeric piece built in new() ends up in date_str (directly or through a local)
+        if not isinstance(st, ast.Assign):
             continue
         for c in ast.walk(st.value):
             fmt, val = None, None
